@@ -14,18 +14,6 @@ def returned_aggregate(ctx, rule, body, adt):
     return aggs[0][1]
 
 
-def fresh_id_rule(ctx, rule, body, op, what):
-    """new ids derive from the largest defined decision-variable id plus one"""
-    s = slice_op(ctx, body, op)
-    probs = []
-    if not s.has_field('v1::DecisionVariable', 'id'): probs.append('does not depend on the defined decision-variable ids')
-    if not s.has_call(r'BTreeSet::<u64>::(last|pop_last)|BTreeMap::<.*>::last_key_value|Iterator>::max|::max_by_key|Ord>::max'):
-        probs.append('does not take the maximum of the defined ids')
-    if not (s.has_const(r'^1_u64$')): probs.append('no `+ 1`')
-    ctx.check(not probs, rule, 'T-CARRY', body.name, '%s: %s' % (what, '; '.join(probs)), body.site())
-    return s
-
-
 def check_method(ctx, name, uniform):
     R = 'C09.%s' % ('uniform' if uniform else 'per')
     body = ctx.method('C09.anchor/' + name, INST, name)
